@@ -25,8 +25,9 @@ TRUSTED = ["translator (td_to_dt, td_to_ht, td_to_ticks_dt, td_to_ticks_int, td_
            "Model/Convert.v: Decimal/float entry point modelled as exact rational arithmetic (Decimal prec=64 suffices for the generated values)",
            "harness converts datetime/hightime objects to exact integer counts of us/ys"]
 ASSUMPTIONS = ["datetime/hightime arithmetic is exact integer arithmetic in us/ys (outside /repo)", "Decimal context precision 64 is enough for hightime values (<= 39 digits)"]
-PARTIAL = ["total_seconds() within 2 ulp and TimeDelta(x.precision_total_seconds()) == x are checked per run by the exact-rational oracle in Coq, "
-           "and proved only under the hypothesis that the Decimal value is within 1/4 tick (C04_precision_roundtrip_partial)",
+PARTIAL = ["TimeDelta(x.precision_total_seconds()) == x is checked per run by the exact-rational oracle in Coq and proved only under the "
+           "hypothesis that the Decimal value is within 1/4 tick (C04_precision_roundtrip_partial); total_seconds() is modelled bit-exactly "
+           "(three round-to-nearest-even steps) with a proved error bound of half a quantum per step",
            "IEEE/Decimal rounding inside CPython is modelled, not proved"]
 
 US, YS = 10**6, 10**24
